@@ -81,6 +81,7 @@ template <class X> void run(Ctx& c, const Str& s, unsigned mask, int opKind, int
         { LibScope ls; (void)X::NormalizeSyntaxMaskRequired(&u); (void)X::EqualsUri(&u, &u); }
         c.distinct(hash_str(s, mask * 2 + (unsigned)opKind));
         c.count(fmt("hostkind_%d", v1.c.hostKind));
+        if (v1.segs.size() > 65535) c.count("paths_of_more_than_65535_segments");
     }
     c.stage(5);
     { LibScope ls; if (useLed) X::FreeUriMembersMm(&u, led.mgr()); else X::FreeUriMembers(&u); }
